@@ -40,6 +40,11 @@ ITEMS: Dict[str, Tuple[str, int, int, Optional[int]]] = {
 }
 for _n, (_f, _s, _a) in NESTED.items():
     ITEMS[_n] = (_n, _s, _a, None)
+# message definitions used as field types (only inside other messages: struct_defs precede message_defs in a file)
+NESTED_MSGS = {"M4": ({"a": "int32", "b": "int16", "p": "char[2]"}, 8, 4), "M2": ({"a": "uint16", "c": "char", "p": "char"}, 4, 2), "M1": ({"c": "char[3]"}, 3, 1)}
+for _n, (_f, _s, _a) in NESTED_MSGS.items():
+    ITEMS[_n] = (_n, _s, _a, None)
+ITEMS["M2x3"] = ("M2[3]", 4, 2, 3)
 # field-list reuse copies used as field types (a copy must keep the layout properties of its source)
 REUSE = {"RN1": "N1", "RN2": "N2", "RN4b": "N4b", "RN5": "N5"}
 for _r, _src in REUSE.items():
@@ -50,7 +55,7 @@ for _n in ("N1", "N2", "N8", "N5"):
     ITEMS[_n + "x2"] = (f"{_n}[2]", NESTED[_n][1], NESTED[_n][2], 2)
 
 FULL = list(ITEMS)
-SMALL = ["c1", "i2", "i4", "f8", "c1x3", "N1", "N2", "N8", "i2x3", "N5x3", "RN2", "RN1"]
+SMALL = ["c1", "i2", "i4", "f8", "c1x3", "N1", "N2", "N8", "i2x3", "N5x3", "RN2", "RN1", "M4", "M2"]
 
 
 def sequences(tier: str) -> List[Tuple[str, ...]]:
@@ -100,17 +105,25 @@ def fields_of(seq) -> Dict[str, str]:
     return {f"f{i}": ITEMS[it][0] for i, it in enumerate(seq)}
 
 
+def uses_msg(seq) -> bool:
+    return any(it.split("x")[0] in NESTED_MSGS for it in seq)
+
+
+def nested_msg_sections(base_id: int) -> Dict[str, Any]:
+    return {n: {"id": base_id + i, "fields": dict(f)} for i, (n, (f, _s, _a)) in enumerate(NESTED_MSGS.items())}
+
+
 def batch_program(seqs: List[Tuple[str, ...]], base_id: int) -> defx.Program:
     structs = nested_sections()
-    msgs = {}
+    msgs = nested_msg_sections(base_id + 8000)
     for k, seq in enumerate(seqs):
-        if k % 2 == 0:
+        if k % 2 == 0 and not uses_msg(seq):
             structs[f"T{k}"] = {"fields": fields_of(seq)}
         else:
             msgs[f"T{k}"] = {"id": base_id + k, "fields": fields_of(seq)}
     # field-list reuse of (possibly padded) definitions, both directions
     for k in range(0, min(len(seqs), 40)):
-        if k % 4 == 0:
+        if k % 4 == 0 and not uses_msg(seqs[k]):
             structs[f"R{k}"] = {"fields": f"T{k}"}  # struct from struct
         else:
             msgs[f"R{k}"] = {"id": base_id + 5000 + k, "fields": f"T{k}"}  # message from struct / from message
@@ -192,8 +205,9 @@ def check_batch(args) -> Dict[str, Any]:
 
         for k, seq in enumerate(seqs):
             ref = reference_layout(seq)
-            prog = defx.Program({"root.yaml": {"struct_defs": {**nested_sections(), "T": {"fields": fields_of(seq)}} if k % 2 == 0 else nested_sections(),
-                                               "message_defs": None if k % 2 == 0 else {"T": {"id": 1234, "fields": fields_of(seq)}}}})
+            as_struct = k % 2 == 0 and not uses_msg(seq)
+            prog = defx.Program({"root.yaml": {"struct_defs": {**nested_sections(), "T": {"fields": fields_of(seq)}} if as_struct else nested_sections(),
+                                               "message_defs": nested_msg_sections(7000) if as_struct else {**nested_msg_sections(7000), "T": {"id": 1234, "fields": fields_of(seq)}}}})
             root = prog.write(d)
             try:
                 defx.parse_model(root, import_coredefs=False, auto_pad=False)
@@ -258,6 +272,63 @@ def size_boundaries(_=None) -> Dict[str, Any]:
     return {"problems": problems, "stats": {"size_cases": n}}
 
 
+def cli_options(_=None) -> Dict[str, Any]:
+    """compiler_options written in the definition file must reach the parser when the command line entry point is used"""
+    import contextlib
+    import io
+    import sys
+    import pyrtma.compile as pc
+    import pyrtma.compilers.python as pyc
+    from .. import valx
+
+    problems = []
+    n = 0
+    d = core.scratch_dir("c11cli")
+    try:
+        mis = {"a": "char", "b": "int32"}  # needs 3 padding bytes
+        ok = {"a": "int32", "b": "int32"}
+        for opts, fields, flags, want_exit, label in (
+                ({"AUTO_PAD": "false"}, mis, [], 1, "AUTO_PAD false in file, misaligned"),
+                ({"AUTO_PAD": "false"}, ok, [], 0, "AUTO_PAD false in file, aligned"),
+                ({"AUTO_PAD": "true"}, mis, [], 0, "AUTO_PAD true in file, misaligned"),
+                ({}, mis, ["--no_auto_pad"], 1, "--no_auto_pad flag, misaligned"),
+                ({}, mis, [], 0, "defaults, misaligned"),
+                ({"VALIDATE_ALIGNMENT": "false", "AUTO_PAD": "false"}, mis, [], 0, "validation off in file, misaligned"),
+                ({"AUTO_PAD": "false", "IMPORT_COREDEFS": "false"}, mis, [], 1, "AUTO_PAD false + no core import, misaligned")):
+            n += 1
+            sub = os.path.join(d, f"c{n}")
+            os.makedirs(sub)
+            lines = []
+            if opts:
+                lines.append("compiler_options:")
+                lines += [f"  {k}: {v}" for k, v in opts.items()]
+            lines += ["message_defs:", "  CLI_T:", "    id: 4700", "    fields:"] + [f"      {k}: {v}" for k, v in fields.items()]
+            root = os.path.join(sub, "root.yaml")
+            open(root, "w").write("\n".join(lines) + "\n")
+            argv = sys.argv
+            sys.argv = ["pyrtma.compile", "-i", root, "--c", "-o", sub] + flags
+            old = pyc.subprocess
+            pyc.subprocess = valx._Subprocess(False)
+            code = 0
+            try:
+                with contextlib.redirect_stdout(io.StringIO()), contextlib.redirect_stderr(io.StringIO()):
+                    pc.main()
+            except SystemExit as e:
+                code = int(e.code or 0)
+            except Exception as e:
+                code = f"{type(e).__name__}"
+            finally:
+                pyc.subprocess = old
+                sys.argv = argv
+            hdr = os.path.join(sub, "root.h")
+            padded = os.path.exists(hdr) and "padding_" in open(hdr).read()
+            if code != want_exit:
+                problems.append({"kind": "cli-option-ignored", "case": label, "exit": code, "expected_exit": want_exit, "padding_inserted": padded})
+    finally:
+        core.rmtree(d)
+    return {"problems": problems, "stats": {"cli_cases": n}}
+
+
 def run(tier: str) -> int:
     chk = core.Check("C11", tier, "exploration",
                      "every field sequence up to the length bound over the width/array/nested-struct alphabet, as struct and as "
@@ -268,6 +339,7 @@ def run(tier: str) -> int:
     batches = [(i, b) for i, b in enumerate(core.chunks(seqs, 300))]
     res = core.pmap(check_batch, batches)
     res.append(size_boundaries())
+    res.append(cli_options())
     core.close_pool()
     totals: Dict[str, int] = {}
     for r in res:
@@ -284,7 +356,9 @@ def run(tier: str) -> int:
 
 def replay(case) -> int:
     p = case["problem"]
-    if "seq" not in p:
+    if p.get("kind") == "cli-option-ignored":
+        r = cli_options()
+    elif "seq" not in p:
         r = size_boundaries()
     else:
         r = check_batch((0, [tuple(p["seq"])]))
